@@ -323,6 +323,36 @@ def known_finding_runs(ctx):
     validate_runs(ctx, vlib.read_ndjson(tp), "kf")
 
 
+def delete_all_flushed(ctx):
+    """delete_all_documents when the pending operations are plain adds that are all KNOWN to sit in
+    uncommitted segments (the harness waits for the `registers` hook to show them): outside the
+    recorded finding F-B/F-C (documents still in the pipeline), the outcome is determined - the
+    uncommitted register is cleared - and CoreTrace judges it strictly"""
+    A = lambda i, t: {"op": "add", "id": i, "t": t, "v": 0}
+    C = {"op": "commit"}
+    W = lambda n, d: {"op": "wait_uncommitted", "n": n, "docs": d}
+    DA = {"op": "delete_all"}
+    hs = []
+    for fl in (1, 2):
+        cfg = {"threads": 1, "flush_after": fl, "merge": "none"}
+        k = 2 * fl
+        adds = [A(10 + i, "abc"[i % 3]) for i in range(k)]
+        hs.append({"cfg": cfg, "ops": adds + [W(2, k), DA, A(3, "a"), C], "tag": f"da-flushed-{fl}-a"})
+        hs.append({"cfg": cfg, "ops": [A(1, "a"), C] + adds + [W(2, k), DA, C], "tag": f"da-flushed-{fl}-b"})
+        hs.append({"cfg": cfg, "ops": [A(1, "a"), C] + adds + [W(2, k), DA, {"op": "rollback"}, A(4, "b"), C], "tag": f"da-flushed-{fl}-c"})
+        hs.append({"cfg": cfg, "ops": [A(1, "a"), C] + adds + [W(2, k), DA, A(5, "c"), C, A(6, "a"), C], "tag": f"da-flushed-{fl}-d"})
+    hp, tp = ctx.path("da_flushed_histories.ndjson"), ctx.path("da_flushed_trace.ndjson")
+    vlib.write_ndjson(hp, hs)
+    vlib.run_bin("core_driver", ["replay", "--in", hp, "--out", tp, "--no-storage"], timeout=300)
+    ev = vlib.read_ndjson(tp)
+    waited = sum(1 for e in ev if e.get("ev") == "wait_uncommitted" and e.get("ok"))
+    n = validate_runs(ctx, ev, "da_flushed")
+    ctx.cov["delete_all_over_flushed_segments"] = {"histories": len(hs), "waits_satisfied": waited, "accepted": n}
+    log(f"[R] delete_all over flushed uncommitted segments: {n}/{len(hs)} histories accepted ({waited} waits satisfied)")
+    if waited < len(hs):
+        raise vlib.ToolError("delete_all_flushed: the uncommitted segments never showed up in the registers hook")
+
+
 def delete_file_chain(ctx):
     """one long-lived segment (no forced flush, no merge): every placement of one delete inside the
     first transaction (applied in memory when the segment is finalised) x every ordered choice of
@@ -423,6 +453,7 @@ def run(ctx):
     producers(ctx, 40 if ctx.quick else 500, ctx.seed + 4000)
     budget_runs(ctx)
     delete_file_chain(ctx)
+    delete_all_flushed(ctx)
     delete_queue(ctx)
     runs = vlib.split_runs(api_events(ev2))
     if runs:
